@@ -149,6 +149,35 @@ class Facts:
                 continue
             if not all(hook_like(tgt["locals"][i]["ty"]) for i in range(n + 1, m + 1)):
                 continue
+            # the forwarder's own parameters are handed on, in order, as they are (possibly
+            # reborrowed): `self.push_traced(item, ..)`, not `helper(&self.a, &self.b, ..)`
+            src = {}
+            for blk in live:
+                for st in blk["stmts"]:
+                    if st["k"] != "assign" or st["place"]["p"]:
+                        continue
+                    rv = st["rv"]
+                    pl = None
+                    if rv["k"] == "use" and rv["op"]["k"] in ("copy", "move"):
+                        pl = rv["op"]["place"]
+                    elif rv["k"] == "ref":
+                        pl = rv["place"]
+                    if pl is not None and all(e["k"] == "deref" for e in pl["p"]):
+                        src[st["place"]["l"]] = pl["l"]
+
+            def param_of(op):
+                if op.get("k") not in ("copy", "move") or op["place"]["p"]:
+                    return None
+                l = op["place"]["l"]
+                for _ in range(6):
+                    if 1 <= l <= n:
+                        return l
+                    if l not in src:
+                        return None
+                    l = src[l]
+                return None
+            if [param_of(a) for a in t["args"][:n]] != list(range(1, n + 1)):
+                continue
             cand.setdefault(k2, []).append(b)
         alias = {k2: bs[0] for k2, bs in cand.items() if len(bs) == 1}
         if not alias:
